@@ -21,6 +21,11 @@ T_INI = 5.0          # caller timeout per Initiator.exchange (>= 8*RWT*(k+1))
 T_TGT = 5.0          # caller timeout per Target.exchange
 T_ACT = 3.0          # Target.activate (listen) timeout
 RWT = 4096 / 13.56E6 * 2 ** 8
+MAX_FRAMES = 150     # horizon of one execution (the longest one seen has 48)
+# cap on the executions below one first-level branch of a fault tree, per k
+# (the largest branch seen at k = 3 has about 2500 executions, see
+# coverage.bounds.largest_branch); a cap that is hit is reported, never silent
+CAP_PER_BRANCH = {0: 1, 1: 1, 2: 3000, 3: 100000}
 
 
 # ----------------------------------------------------------------------------
@@ -151,7 +156,6 @@ class Obs(object):
 def run_case(cfg, chooser):
     import nfc.dep
     import nfc.clf
-    s = sched.Sched(chooser, max_steps=6000, timer_deviations=False)
     framing = cfg['framing']
     acm = framing.startswith('acm')
     if acm:
@@ -159,6 +163,8 @@ def run_case(cfg, chooser):
     brty0 = framing.split('>')[0]
     brs = ('106A', '212F', '424F').index(framing.split('>')[-1])
     chan = depchan.Channel(chooser, brty=brty0, acm=acm)
+    s = sched.Sched(chooser, max_steps=20 * MAX_FRAMES, timer_deviations=False,
+                    until=lambda _s: len(chan.log) >= MAX_FRAMES)
     ini = nfc.dep.Initiator(chan.initiator)
     tgt = nfc.dep.Target(chan.target)
     conv = conversation(cfg)
@@ -250,11 +256,6 @@ def xsig(exc):
     return sig
 
 
-def fdesc(f):
-    return '%s:%s>%s:%s' % (depchan.FATES[f.fate], f.src, f.dst,
-                            f.p.pdu or f.p.kind)
-
-
 def judge(cfg, o):
     """Returns (violations, info): violations = list of (signature, message);
     info = dict with the oracle branches taken (for counters/outcomes)."""
@@ -305,8 +306,9 @@ def judge(cfg, o):
 
     # 1. the execution must end
     if o.verdict != 'finished':
-        vio.append(('C04|%s|did=%d|%s' % (o.verdict, did, first_failure()),
-                    'execution did not finish: %s %s' % (o.verdict, o.stuck)))
+        vio.append(('C04|no-end:%s|did=%d|%s' % (o.verdict, did, first_failure()),
+                    'execution did not finish (%s; horizon %d frames): %s'
+                    % (o.verdict, MAX_FRAMES, o.stuck)))
 
     # 2. only CommunicationError subclasses
     for side, exc, at in (('I', o.i_exc, o.i_exc_at), ('T', o.t_exc, o.t_exc_at)):
@@ -419,9 +421,10 @@ def detail(cfg, chooser, o, vio):
                                delivered=len(o.got_i)),
                 target=dict(state=o.t_state, exc=repr(o.t_exc),
                             delivered=len(o.got_t), none=o.t_none),
-                frames=['%3d %s %-13s pni=%s len=%d t=%.4f %s' % (
+                frames=['%3d %s %-13s pni=%s len=%3d t=%.4f %-7s %s%s' % (
                     f.idx, f.src + '>' + f.dst, f.p.name, f.p.pni,
-                    len(f.data), f.t - 1000.0, depchan.FATES[f.fate])
+                    len(f.data), f.t - 1000.0, depchan.FATES[f.fate],
+                    f.data[:10].hex(), '..' if len(f.data) > 10 else '')
                     for f in o.chan.log])
 
 
@@ -459,25 +462,13 @@ class _Pin(object):
                 pass
 
 
-def roots_of(cfg):
-    """First-level branches of the fault tree: one per (env choice point of
-    the fault-free execution, non-deliver fate)."""
-    ch = sched.Chooser(())
-    run_case(cfg, ch)
-    out = []
-    for i, (n, costs, c, kind, label) in enumerate(ch.log):
-        if kind == 'env':
-            for alt in range(1, n):
-                out.append(tuple([0] * i + [alt]))
-    return out
-
-
 def explore_item(item):
-    """item = (cfg, part, parts).  parts == 1: the whole tree of cfg with
-    mc.explore.  parts > 1: slice `part` of the first-level branches (the
-    fault-free execution belongs to slice 0); every slice is explored by
-    mc.explore below its root with the remaining budget, which visits exactly
-    the executions mc.explore would visit below that branch."""
+    """item = (cfg, part, parts): slice `part` of the first-level branches
+    of cfg's fault tree (one branch per env choice point of the fault-free
+    execution and non-deliver fate; the fault-free execution itself belongs
+    to slice 0).  mc.explore.explore() walks the tree below each branch with
+    the remaining budget, which visits exactly the executions it would visit
+    below that branch when started at the root, each once."""
     cfg, part, parts = item
     with _Pin():
         return _explore_item(cfg, part, parts)
@@ -487,7 +478,8 @@ def _explore_item(cfg, part, parts):
     run = Run(PROP)
     ck = cfg_key(cfg)
     t0 = _time.time()
-    acc = dict(frames=0, max_frames=0, execs=0, by_cost={}, max_depth=0)
+    acc = dict(frames=0, max_frames=0, execs=0, by_cost={}, max_depth=0,
+               skipped=0, capped=0, max_branch=0)
 
     def visit(ch, o):
         ch = o.chooser
@@ -555,21 +547,34 @@ def _explore_item(cfg, part, parts):
             return o
         return run_one
 
-    if parts == 1:
-        explore.explore(below(()), cfg['k'], visit, cost_filter=only_env)
-    else:
-        if part == 0:
-            explore.explore(below(()), 0, visit, cost_filter=only_env)
-        if cfg['k'] >= 1:
-            for j, root in enumerate(roots_of(cfg)):
-                if j % parts == part:
-                    explore.explore(below(root), cfg['k'] - 1, visit,
-                                    cost_filter=only_env)
+    # the fault-free execution first (counted by slice 0 only)
+    ch0 = sched.Chooser(())
+    o0 = run_case(cfg, ch0)
+    o0.chooser = ch0
+    if part == 0:
+        visit(ch0, o0)
+    if not judge(cfg, o0)[1]['complete'] and cfg['k'] > 0:
+        # a conversation that fails without any fault is reported as such;
+        # enumerating faults on top of it says nothing more
+        acc['skipped'] = 1
+    elif cfg['k'] > 0:
+        roots = [tuple([0] * i + [alt])
+                 for i, (n, costs, c, kind, label) in enumerate(ch0.log)
+                 if kind == 'env' for alt in range(1, n)]
+        for j, root in enumerate(roots):
+            if j % parts == part:
+                st = explore.explore(below(root), cfg['k'] - 1, visit,
+                                     cost_filter=only_env,
+                                     max_execs=CAP_PER_BRANCH[cfg['k']])
+                acc['max_branch'] = max(acc['max_branch'], st.executions)
+                if st.capped:
+                    acc['capped'] += 1
     out = run.export()
     out['stats'] = dict(cfg=cfg, part=part, parts=parts,
                         executions=acc['execs'], by_cost=acc['by_cost'],
                         max_depth=acc['max_depth'], frames=acc['frames'],
-                        max_frames=acc['max_frames'],
+                        max_frames=acc['max_frames'], skipped=acc['skipped'],
+                        capped=acc['capped'], max_branch=acc['max_branch'],
                         wall=_time.time() - t0)
     return out
 
@@ -604,10 +609,23 @@ def main(tier='quick', seed=0, part=None):
         for k, v in st['by_cost'].items():
             by_cost[k] = by_cost.get(k, 0) + v
         e = per_cfg.setdefault(cfg_key(st['cfg']), dict(
-            cfg=st['cfg'], executions=0, max_frames=0, wall=0.0))
+            cfg=st['cfg'], executions=0, max_frames=0, wall=0.0,
+            skipped=0, capped=0, max_branch=0))
         e['executions'] += st['executions']
         e['max_frames'] = max(e['max_frames'], st['max_frames'])
+        e['max_branch'] = max(e['max_branch'], st['max_branch'])
         e['wall'] += st['wall']
+        e['skipped'] |= st['skipped']
+        e['capped'] += st['capped']
+    capped = [e for e in per_cfg.values() if e['capped']]
+    skipped = [e for e in per_cfg.values() if e['skipped']]
+    for e in capped:
+        # never silent: an execution cap means the stated space was not walked
+        run.fail('C04|harness|execution-cap', dict(
+            cfg=e['cfg'], branches_capped=e['capped'],
+            cap=CAP_PER_BRANCH[e['cfg']['k']],
+            note='fault tree much larger than on the reference tree'),
+            key=('cap', cfg_key(e['cfg'])), deviations=99)
     run.rule = ("one case = (configuration, fate script): a complete "
                 "conversation of the real nfc.dep.Initiator and Target over "
                 "sim.depchan under that script; per configuration all "
@@ -649,26 +667,37 @@ def main(tier='quick', seed=0, part=None):
         configurations=len(cfgs), configurations_by_fault_bound_k=ks,
         executions=execs, executions_by_fault_count=by_cost,
         frames_total=frames, max_frames_in_one_execution=max_frames,
-        fates=list(depchan.FATES), caps_hit=[],
-        bound_completed="every configuration explored to its k")
+        fates=list(depchan.FATES),
+        caps_hit=[dict(cfg=e['cfg'], branches=e['capped']) for e in capped],
+        frame_horizon=MAX_FRAMES, cap_per_first_level_branch=CAP_PER_BRANCH,
+        largest_branch=max([e['max_branch'] for e in per_cfg.values()] or [0]),
+        fault_enumeration_skipped_because_fault_free_run_fails=[
+            dict(framing=e['cfg']['framing'], lri=ref.LR[e['cfg']['lri']],
+                 lrt=ref.LR[e['cfg']['lrt']], did=e['cfg']['did'],
+                 nad=e['cfg']['nad'], k=e['cfg']['k']) for e in skipped],
+        bound_completed="every configuration explored to its k"
+        if not capped else "caps hit, see caps_hit")
     run.extra['grid'] = [
         dict(kind=e['cfg']['kind'], framing=e['cfg']['framing'],
              lri=ref.LR[e['cfg']['lri']], lrt=ref.LR[e['cfg']['lrt']],
              did=e['cfg']['did'], nad=e['cfg']['nad'],
              rtox_at=e['cfg']['rtox_at'], k=e['cfg']['k'],
              sizes=conversation(e['cfg']), executions=e['executions'],
-             max_frames=e['max_frames'], cpu_wall_s=round(e['wall'], 2))
+             max_frames=e['max_frames'], cpu_wall_s=round(e['wall'], 2),
+             fault_free_run_fails=bool(e['skipped']))
         for key, e in sorted(per_cfg.items())]
     run.extra['traces_validated_against_impl'] = execs
-    print("C04 tier=%s configurations=%d executions=%d by_faults=%s" % (
-        tier, len(cfgs), execs, dict(sorted(by_cost.items()))))
+    print("C04 tier=%s configurations=%d executions=%d by_faults=%s "
+          "max_frames=%d skipped(fault-free run fails)=%d capped=%d" % (
+              tier, len(cfgs), execs, dict(sorted(by_cost.items())),
+              max_frames, len(skipped), len(capped)))
     for k in sorted(run.counters):
         print("  %-44s %d" % (k, run.counters[k]))
     if len(run.outcomes) < 2:
         print("  WARNING vacuous: %d distinct outcomes" % len(run.outcomes))
     for sig, n in sorted(run.failure_counts.items()):
         print("  fail x%-6d %s" % (n, sig))
-    return run.finish(exhaustive=True)
+    return run.finish(exhaustive=not capped)
 
 
 def replay(doc):
